@@ -122,9 +122,7 @@ func runWriteCase(payloads []string, oracle []wStep) *tcpCase {
 		cancel()
 		consumed += countWrites(cmem) - before
 		c.Oks = append(c.Oks, err == nil)
-		if err != nil {
-			break
-		}
+		// the following sends are made all the same: after a failed one they must fail and write nothing
 	}
 	n := smem.Pending()
 	buf := make([]byte, n)
